@@ -26,7 +26,8 @@ CLAUSES = ("frame: n_o*n_t points on shells 10*r[nm], shapes", "one stored patte
            "bounded cell: volume = Euclidean Voronoi cell volume, > 0", "open (unbounded) cell <=> reported volume 0",
            "adjacent pair: border = area of the shared planar face (bounded faces)",
            "adjacent pair of bounded cells: border > 0", "adjacent pair: distance = Euclidean distance, > 0",
-           "oracle face > 1e-6 typical => reported adjacent")
+           "oracle face > 1e-6 typical => reported adjacent",
+           "later requests do not see a caller's in-place change of an earlier result")
 
 
 def radii_for(seed, alg, N):
@@ -201,6 +202,14 @@ def check_grid(alg, N, t):
             "max_vol_relerr": float(np.max(np.abs(vol - ovol)[~is_open] / ovol[~is_open])) if nb else 0.0,
             "max_border_err_over_typ": float(max(relb)) if relb else 0.0,
             "max_border_err_over_tolerance": float(max(tolb)) if tolb else 0.0}
+    if N % 3 == 0:
+        from .common import caller_mutation_visible
+        counts[CLAUSES[8]] += 1
+        with quiet():
+            bad = caller_mutation_visible({"volumes": pg.get_all_position_volumes, "adjacency": pg.get_adjacency_of_position_grid,
+                                           "borders": pg.get_borders_of_position_grid, "distances": pg.get_distances_of_position_grid})
+        if bad:
+            fail(CLAUSES[8], f"getters {bad} hand out a buffer that later requests return again (changed by the caller in between)")
     return done(info)
 
 
